@@ -3,7 +3,9 @@ or the application's callback explicitly accepted that failure, and the peer pro
 handshake's own data; without a callback every validation failure is fatal, identically in every protocol version.
 
 Theorems: coq/Properties/Properties_C04.v over coq/Auth/AuthModel.v (cert_outcome12 / cert_outcome13 = the REPAIRED
-hsDecode.c parseCertificate / tls13Authenticate.c matrixSslValidatePeerCerts; message machine of the verifying side).
+hsDecode.c parseCertificate / tls13Authenticate.c matrixSslValidatePeerCerts with the shared matrixssl.c
+matrixSslSetCertChainAlert (most severe defect wins); message machine of the verifying side, for a client-auth server from
+the ClientHello on: the requirement is dropped only by a successful lookup of the offered resumption material).
 Tie (i)  verdict sweep: a live handshake is driven to the peer's Certificate message; harness/h_auth.c answers the real code's
          call of matrixValidateCertsExt with a fabricated verdict (rc, per-certificate authStatus/authFailFlags, chain
          shape), the REAL parseCertificate / tls13 code maps it; the extracted model must give the same callback argument
@@ -11,7 +13,11 @@ Tie (i)  verdict sweep: a live handshake is driven to the peer's Certificate mes
          `thorough`, stratified sample in `quick`.
 Tie (ii) live handshakes with genuinely defective credentials / proofs of possession x callback modes x versions x key
          exchanges x roles; each verifying side is re-run through the extracted message machine (ideal signatures).
-Search oracle (Impl vs Spec, from the property text, independent of the model): `complete-despite:...`.
+Tie (iii) a server configured for client authentication x what a client may offer instead of a fresh handshake (made-up / expired /
+         evicted / altered / foreign-key session id, ticket, TLS 1.3 ticket PSK; sessions negotiated with and without client auth).
+Search oracle (Impl vs Spec, from the property text, independent of the model): `complete-despite:...` (a callback's "0" accepts
+the alert it was given only: completion is legal only if no defect of the chain is more severe than that alert),
+`live-complete-despite:...`.
 """
 import base64, itertools, json, os, re, threading
 import vlib
@@ -27,9 +33,9 @@ STATUSES = [1, 0, -32, -33, -34, -35, -36, -37, -38, -39]
 EXT_FLAGS = [0, 1, 4, 5, 8, 9, 12, 13]          # subsets of {KEY_USAGE 1, SUBJECT 4, DATE 8}; EKU/VERIFY_DEPTH are never read
 OTHER_FLAGS = [0, 12]
 RCS = [0, -1, -6, -31, -36, -8]                 # success, PS_FAILURE, PS_ARG_FAIL, PS_PARSE_FAIL, PS_CERT_AUTH_FAIL, PS_MEM_FAIL
-CBS = [(0, 0), (1, 0), (2, 0), (3, 49), (3, -1), (3, 254), (6, 45), (6, 48)]
+CBS = [(0, 0), (1, 0), (2, 0), (3, 49), (3, -1), (3, 254), (6, 45), (6, 46), (6, 48)]
 CB_NAME = {(0, 0): "nocb", (1, 0): "cb-strict", (2, 0): "cb-permissive", (3, 49): "cb-alert49", (3, -1): "cb-negative",
-           (3, 254): "cb-anon", (6, 45): "cb-accept45", (6, 48): "cb-accept48"}
+           (3, 254): "cb-anon", (6, 45): "cb-accept45", (6, 46): "cb-accept46", (6, 48): "cb-accept48", (6, 42): "cb-accept42"}
 
 
 def cert_variants(st):
@@ -66,7 +72,7 @@ def verdict_domain():
     for a in reps:
         for b in reps:
             for rc in (0, -36):
-                for cb in ((0, 0), (1, 0), (2, 0), (6, 42)):
+                for cb in ((0, 0), (1, 0), (2, 0), (6, 42), (6, 45), (6, 46), (6, 48)):
                     for ver in (12, 13):
                         out.append(("B", vline(ver, "c", cb, 1, 0, rc, [(a[0], a[1], 0), (b[0], b[1], 1)])))
     # C: max_verify_depth against chains of 1..3 certificates (self-signed or not at each position)
@@ -129,17 +135,50 @@ def spec_failure_reason(c, ss):
     return None
 
 
+def spec_defects(c, ss):
+    """every defect of the verdict, as the alert description that stands for it (property text: signature / issuer / constraint
+    problems, revocation, unknown CA, expiry, name); written independently of the Coq spec"""
+    D = []; n = len(c["chain"])
+    for i, (st, fl, _) in enumerate(c["chain"]):
+        hn = i < n - 1
+        if st == PASS: continue
+        if st == -35: D.append(44)
+        elif st == -37:
+            if (fl & ~12) or not (fl & 12): D.append(42 if hn else 47)
+            if fl & 4: D.append(46)
+            if fl & 8: D.append(45)
+        elif st in (-32, -33): D.append(42 if hn else 48)
+        else: D.append(42)
+    if not c["ca"]: D.append(48)
+    if c["depth"] > 0:
+        last_self = (ss[n - 1] == "1") if len(ss) >= n else False
+        if n + (0 if last_self else 1) > c["depth"]: D.append(48)
+    if c["rc"] < 0 and not D: D.append(42)
+    return D
+
+
+def severity(alert):
+    """expired < name mismatch < everything that breaks the trust path"""
+    return 0 if alert in (0, 255, None) else 1 if alert == 45 else 2 if alert == 46 else 3
+
+
 RES_V = re.compile(r"ss=(\S+) val=(\d+) cb=(\S+) out=(\S+)")
+
+
+def run_h(ck, exe, lines, timeout=3000):
+    """h_auth result lines carry the prefix '@ ' (the library prints diagnostics of its own to stdout)"""
+    out = ck.run_lines(exe, lines, timeout=timeout)[1]
+    return [o[2:] for o in out if o.startswith("@ ")]
 
 
 def run_parallel(ck, exe, lines, nproc):
     if nproc <= 1 or len(lines) < 400:
-        return ck.run_lines(exe, lines, timeout=3000)[1]
+        return run_h(ck, exe, lines)
     k = (len(lines) + nproc - 1) // nproc
     chunks = [lines[i:i + k] for i in range(0, len(lines), k)]
     res = [None] * len(chunks)
     def work(i):
-        res[i] = ck.run_lines(exe, chunks[i], timeout=3000)[1]
+        res[i] = run_h(ck, exe, chunks[i])
     th = [threading.Thread(target=work, args=(i,)) for i in range(len(chunks))]
     for t in th: t.start()
     for t in th: t.join()
@@ -203,6 +242,10 @@ def verdict_sweep(ck, h, drv, corpus_v):
                 bad = "the callback was %s" % ("never consulted" if cba == "-" else "told that no alert is pending (alert argument 0)")
             elif cb_answer(p["cb"], int(cba)) not in (0, 254):
                 bad = "the callback answered %d" % cb_answer(p["cb"], int(cba))
+            elif max(severity(d) for d in spec_defects(p, ss)) > severity(int(cba)):
+                worst = max(spec_defects(p, ss), key=severity)
+                bad = "the callback was only told alert %s while the chain also has a worse defect (alert %d)" % (cba, worst)
+                cbn += "-hidden-worse"
             else:
                 bad = None          # explicitly accepted by the application
             if bad:
@@ -242,6 +285,18 @@ def live_scenarios(ck):
             for cls, kv in cred:
                 S.append(dict(base, ccb=cbm, _cls=cls, _cb=cbn, _side="c", _pop=None, **kv))
             pops = ["flip", "stale", "replay", "wrongkey"] if kex == "dhe" else []
+            if cbm == 0 and suite in ("c02f", "c02b", ""):
+                # chains with TWO defects x callbacks that tolerate exactly ONE alert description (completion is legal only when the
+                # tolerated alert is at least as severe as every defect: expired < name < untrusted)
+                multi = [("expired+name-mismatch", dict(year=2030, name="wrong.example.com"), 2),
+                         ("expired+wrong-ca", dict(year=2030, cca=2), 3),
+                         ("expired-leaf+untrusted-root", dict(year=2030, cca=2, schain=1), 3),
+                         ("expired+no-ca", dict(year=2030, cca=0, cid=1, schain=1), 3),
+                         ("name-mismatch+wrong-ca", dict(name="wrong.example.com", cca=2), 3),
+                         ("expired", dict(year=2030), 1), ("name-mismatch", dict(name="wrong.example.com"), 2)]
+                for cls, kv, sev in multi:
+                    for tol in (45, 46, 48, 42):
+                        S.append(dict(base, ccb=6, carg=tol, _cls=cls, _cb="cb-accept%d" % tol, _side="c", _pop=None, _sev=sev, _tol=tol, **kv))
             for pm in pops:
                 S.append(dict(base, ccb=cbm, pop=pm + ":s", _cls="valid", _cb=cbn, _side="c", _pop=pm))
             if kex == "rsa" and suite == "009c":      # (003c: a corrupted key exchange currently crashes the library in its CBC-SHA256 MAC path: reported to C08)
@@ -300,7 +355,7 @@ def cert_tok(verdict, ca, depth):
 def live_matrix(ck, h, drv, altkeys, corpus_l):
     S = live_scenarios(ck)
     lines = [altkeys] + list(corpus_l) + [lline(s) for s in S]
-    out = ck.run_lines(h, lines, timeout=3000)[1]
+    out = run_h(ck, h, lines)
     if not out or not out[0].startswith("altkeys:") or ":-" in out[0]:
         ck.log("alternate private keys could not be loaded: %r" % (out[:1],))
     out = out[1 + len(corpus_l):]
@@ -322,6 +377,8 @@ def live_matrix(ck, h, drv, altkeys, corpus_l):
         cbm = s.get("ccb" if side == "c" else "scb", 0)
         told = ver_peer["cblast"] if ver_peer["cbcalls"] else None
         accepted = cls == "valid" or (cbm == 2 and told not in (None, 0))
+        if "_tol" in s:     # tolerant of one alert: legal only if it was told exactly that alert and nothing the chain has is worse
+            accepted = told == s["_tol"] and severity(s["_tol"]) >= s["_sev"]
         if s.get("omit"):
             om = re.search(r" omit=(\d+):(\d+)", out[i])
             applied = om and int(om.group(2)) >= 1 and int(om.group(1)) >= 1
@@ -349,7 +406,7 @@ def live_matrix(ck, h, drv, altkeys, corpus_l):
         cpop = s["pop"].split(":")[0] if s.get("pop", "").endswith(":c") else None
         ca_c = 0 if s.get("cca", 1) == 0 else 1
         ca_s = 0 if s.get("sca", 1) == 0 else 1
-        ccb = "%d %d" % (s.get("ccb", 0), 0); scb = "%d %d" % (s.get("scb", 0), 0)
+        ccb = "%d %d" % (s.get("ccb", 0), s.get("carg", 0)); scb = "%d %d" % (s.get("scb", 0), s.get("sarg", 0))
         calg = alg if s.get("forcehash", "").endswith(":s") else 4
         salg = alg if s.get("forcehash", "").endswith(":c") else 4
         if vc == "-":
@@ -405,13 +462,109 @@ def live_matrix(ck, h, drv, altkeys, corpus_l):
     return len(S)
 
 
+# ------------------------------------------------------------------ the requirement "authenticate the client" across resumption offers
+def resumption_scenarios():
+    S = []
+    for ver, suite in ((12, "c02f"), (11, "c013"), (13, "")):
+        for scb, cbn in ((0, "nocb"), (1, "cb-strict"), (2, "cb-permissive")):
+            base = dict(ver=ver, suite=suite, cauth=1, scb=scb, _cb=cbn)
+            if ver != 13:
+                S.append(dict(base, offer="fakeid", cid=0, _cls="fake-session-id", _orig=None, _cert=0))
+                S.append(dict(base, offer="fakeid", _cls="fake-session-id", _orig=None, _cert=1))
+                for tk in (0, 1):
+                    t = dict(ticket=1) if tk else {}
+                    mech = "ticket" if tk else "id"
+                    S.append(dict(base, pre="auth", _cls="genuine-" + mech, _orig=1, _cert=1, **t))
+                    for bt in ("expire", "restart", "corrupt") + (("foreignkey",) if tk else ()):
+                        if tk and bt == "restart": continue
+                        S.append(dict(base, pre="auth", between=bt, seed=7, _cls="%s-%s" % (mech, bt), _orig=1, _cert=1, **t))
+                        S.append(dict(base, pre="auth", between=bt, seed=7, cid=0, _cls="%s-%s" % (mech, bt), _orig=1, _cert=0, **t))
+                    S.append(dict(base, pre="noauth", _cls="unauthenticated-original-" + mech, _orig=0, _cert=1, **t))
+                    S.append(dict(base, pre="noauth", cid=0, _cls="unauthenticated-original-" + mech, _orig=0, _cert=0, **t))
+                    S.append(dict(base, pre="noauth", between="expire", cid=0, _cls="unauthenticated-original-%s-expire" % mech, _orig=0, _cert=0, **t))
+            else:
+                S.append(dict(base, ticket=1, pre="auth", _cls="genuine-psk", _orig=1, _cert=1))
+                for bt in ("expire", "corrupt", "foreignkey"):
+                    S.append(dict(base, ticket=1, pre="auth", between=bt, _cls="psk-" + bt, _orig=1, _cert=1))
+                    S.append(dict(base, ticket=1, pre="auth", between=bt, cid=0, _cls="psk-" + bt, _orig=1, _cert=0))
+                S.append(dict(base, ticket=1, pre="noauth", _cls="unauthenticated-original-psk", _orig=0, _cert=1))
+                S.append(dict(base, ticket=1, pre="noauth", cid=0, _cls="unauthenticated-original-psk", _orig=0, _cert=0))
+    return S
+
+
+RES_R = re.compile(r"(?: pre=(-?\d+),(-?\d+),(\d+),(\d+))? res=(-?\d+)")
+
+
+def resumption_matrix(ck, h, drv):
+    """a server configured for client authentication x what a client may offer instead of a fresh handshake.  Oracle (property text):
+    the server completes only if THIS handshake validated a client chain and verified a CertificateVerify, or it resumed a session whose
+    ORIGINAL handshake did."""
+    S = resumption_scenarios()
+    lines = [lline(s) for s in S]
+    out = run_h(ck, h, lines)
+    cases, impl_c, mlines = [], [], []
+    for i, s in enumerate(S):
+        o = out[i] if i < len(out) else ""
+        m = RES_L.match(o); r = RES_R.search(o)
+        if not m or not r or int(m.group(1)) != 0:
+            ck.count("resume:unparsed-or-setup-failed"); ck.log("resumption scenario not run: %s => %r" % (lines[i], o)); continue
+        c, sv = parse_side(m.group(2)), parse_side(m.group(3))
+        sval, csign, vs = int(m.group(5)), int(m.group(6)), m.group(9)
+        res = int(r.group(5)); ver = s["ver"]
+        if s.get("pre"):
+            pre_ok = r.group(1) is not None and int(r.group(1)) == 1 and int(r.group(2)) == 1 and \
+                     ((int(r.group(3)) >= 1 and int(r.group(4)) >= 1) if s["pre"] == "auth" else int(r.group(3)) == 0)
+            if not pre_ok:
+                ck.obligation("resume:earlier-handshake-as-intended", False, detail="%s => %s" % (lines[i], o)); continue
+        ck.count("resume:%d:%s:%s:res%d" % (ver, s["_cls"], obs_of(sv).split(":")[0], res))
+        authed_now = sval >= 1 and csign >= 1
+        if sv["done"]:
+            if res == 1 and not s["_orig"] and not authed_now:
+                ck.spec_violation("live-complete-despite:%d:resumed-%s:%s:s" % (ver, s["_cls"], s["_cb"]),
+                                  "a server configured for client authentication completed by resuming a session whose original handshake never "
+                                  "authenticated the client (no certificate, no callback, no CertificateVerify in either handshake)",
+                                  {"harness": "h_auth", "case": lines[i], "observed": o, "expected_by_spec": "full handshake with client authentication"})
+            elif res != 1 and not authed_now:
+                ck.spec_violation("live-complete-despite:%d:no-client-auth-after-%s:%s:s" % (ver, s["_cls"], s["_cb"]),
+                                  "a server configured for client authentication completed a FULL handshake without CertificateRequest / Certificate / "
+                                  "CertificateVerify after the client offered resumption material it could not use (callback calls: %d)" % sv["cbcalls"],
+                                  {"harness": "h_auth", "case": lines[i], "observed": o, "expected_by_spec": "client authentication, or failure"})
+        if s["_cert"] == 1 and not s.get("between") == "corrupt" and ver != 13 and not (c["done"] and sv["done"]):
+            ck.count("resume:honest-client-failed"); ck.log("NOTE honest client with certificate did not complete: %s => %s" % (lines[i], o))
+        # ---- model: the server's message machine from the ClientHello on; the lookup's answer is read off the implementation
+        if ver == 13 and not sv["done"] and sval == 0 and sv["err"] in (20, 40, 47, 51):
+            ck.count("resume:tls13-psk-offer-rejected-in-hello"); continue       # PSK binder / ticket-age handling: not part of this model (C14/C10)
+        hello = "ch:hit:%d" % (1 if s["_orig"] else 0) if res == 1 else "ch:miss"
+        if res == 1:
+            msgs = [hello, "fin:1"]
+        elif vs != "-":
+            msgs = [hello, cert_tok(vs, 1, 0)] + (["cke"] if ver != 13 else []) + (["cv:4:71"] if csign >= 1 else []) + ["fin:1"]
+        elif s["_cert"] == 0:
+            msgs = [hello, "nocert"]            # a client without certificate answers the CertificateRequest with an empty Certificate
+        else:
+            msgs = [hello]
+        mver = 13 if ver == 13 else 12
+        mlines.append("M %d s dhe %d 0 1 %s " % (mver, s["scb"], DEFAULT_OFFER) + " ".join(msgs))
+        cases.append(lines[i]); os_ = obs_of(sv)
+        impl_c.append("s=%s%s" % (os_, " resumed" if res == 1 and sv["done"] else ""))
+    mres = ck.run_lines(drv, mlines, timeout=600)[1] if drv else []
+    model_c = []
+    for j, ml in enumerate(mlines):
+        r = mres[j] if j < len(mres) else "?"
+        ph = r.split()[0][3:]
+        model_c.append("s=%s%s" % ("wait" if ph.startswith("wait") else ph, " resumed" if "resumed=" in r and ph == "done" else ""))
+    ck.correspond("client-auth server x resumption offers: message machine from the ClientHello (model) vs server (impl)", mlines, impl_c, model_c,
+                  nontrivial=lambda cs, o: True)
+    return len(S)
+
+
 def probes(ck, h):
     """reachability facts the domain definition relies on, re-established on every run"""
     lines = ["V 13 s 0 0 0 0 0 1 1 0 0",                       # TLS 1.3 server without CA: does it reach certificate validation?
              "V 12 s 0 0 0 0 0 1 1 0 0",                       # TLS 1.2 server without CA: same question
              "L ver=12 suite=c02f schain=1 depth=2",          # documented: depth 2 = peer certificate + 1 root
              "L ver=13 cca=0 ckeys=none schain=1"]            # TLS 1.3 client with NOTHING loaded
-    out = ck.run_lines(h, lines, timeout=300)[1]
+    out = run_h(ck, h, lines, timeout=300)
     for k in (0, 1):
         if len(out) > k and "val=0" not in out[k]:
             ck.notes.append("a TLS 1.%d server without loaded CAs now reaches certificate validation: extend the verdict domain (block D)" % (3 - k))
@@ -481,6 +634,7 @@ def run(ck):
     n, total = verdict_sweep(ck, h, drv, corpus_v)
     altkeys = load_altkeys(ck)
     nl = live_matrix(ck, h, drv, altkeys, corpus_l)
+    nr = resumption_matrix(ck, h, drv)
     probes(ck, h)
     ck.rules.append("verdict sweep: (A) chains of 1-2 certificates with at most one non-PASS certificate: authStatus in {PASS, 0, FAIL_BC, FAIL_DN, FAIL_SIG, "
                     "FAIL_REVOKED, FAIL, FAIL_EXTENSION, FAIL_PATH_LEN, FAIL_AUTHKEY} x failFlags (all subsets of KEY_USAGE/SUBJECT/DATE for FAIL_EXTENSION, "
@@ -494,6 +648,11 @@ def run(ck):
                     "algorithm that was not offered, or simply ABSENT (CertificateVerify left out by a client / by a TLS 1.3 server, ServerKeyExchange "
                     "without signature; the omitting peer's own transcript and Finished are those of a peer that never wrote the message); RSA key "
                     "transport with a server lacking the private key" % nl)
+    ck.rules.append("resumption offers: %d runs of a server configured for client authentication (TLS 1.1, 1.2, 1.3; no / strict / permissive callback) "
+                    "against clients offering a made-up session id, the id / ticket / TLS 1.3 ticket PSK of an expired, evicted (server restart), altered or "
+                    "foreign-key session, of a genuine authenticated session, and of a session negotiated WITHOUT client authentication on the same keys; "
+                    "clients with and without a certificate (DTLS is not driven by this harness)" % nr)
+    ck.cov["resumption_scenarios"] = nr
     ck.cov["exhaustive"] = (ck.tier == "thorough")
     ck.cov["verdict_domain_size"] = total
     ck.cov["verdict_cases_run"] = n
@@ -505,6 +664,6 @@ def replay(ck, path):
     ck.build_repo()
     h = ck.cc("h_auth.c", wraps=WRAPS)
     lines = [load_altkeys(ck), rp["case"]]
-    out = ck.run_lines(h, lines)[1]
+    out = run_h(ck, h, lines)
     print("case:", rp["case"]); print("observed now:", out[1] if len(out) > 1 else out)
     print("expected by spec:", rp.get("expected_by_spec"))
